@@ -57,6 +57,8 @@ def make_runner(h):
                     break
             if names[-1] != 'poll' or 'ready' not in names:
                 raise W.HarnessError('set-up did not reach Ready: %r' % (names,))
+            for (api, arg) in h.get('pre', []):      # sequential prologue (e.g. the application already closed)
+                CALLS[api](ws, arg)
             ex.events = []
             nloop = h.get('loop', 0)
             if nloop:
